@@ -53,6 +53,21 @@ let run_case cid (t : toks) =
     let nx = next_int t in let x = next_qs t nx in
     let nb = next_int t in let b = next_qs t nb in
     Printf.printf "%s V %s\n" cid (qs_str (spmv kind m x b))
+  | "bspmv" | "bconv" ->
+    (* block literal: bfmt nbr nbc br bc nblk (I J v*(br*bc))*  *)
+    let kind = if op = "bspmv" then next t else "" in
+    let _bfmt = next t in
+    let nbr = next_int t in let nbc = next_int t in let br = next_int t in let bc = next_int t in
+    let nblk = next_int t in
+    let ents = take nblk (fun () -> let i = next_nat t in let j = next_nat t in let v = next_qs t (br * bc) in ((i, j), v)) in
+    let a = { coo_nr = nat_of_int nbr; coo_nc = nat_of_int nbc; coo_ents = ents } in
+    if op = "bconv" then
+      Printf.printf "%s R %s\n" cid (mat_str (MCsr (q_bsr_to_csr (nat_of_int br) (nat_of_int bc) (coo_to_csr a))))
+    else begin
+      let e = q_bcoo_expand (nat_of_int br) (nat_of_int bc) a in
+      let nx = next_int t in let x = next_qs t nx in
+      let nb = next_int t in let b = next_qs t nb in
+      Printf.printf "%s V %s\n" cid (qs_str (spmv kind (MCoo e) x b)) end
   | _ -> Printf.printf "%s UNSUPPORTED %s\n" cid op
 
 let () =
